@@ -14,6 +14,7 @@ pub fn level_of(prop: &str) -> &'static str {
 }
 
 pub struct Env<'a> {
+    pub seed: u64,
     pub prop: &'a str,
     pub tier: &'a str,
     pub threads: usize,
@@ -29,7 +30,7 @@ pub enum Roots {
 
 /// One breadth-first exploration; returns the stored representative histories.
 pub fn bfs(env: &Env, report: &mut Report, prof: &Profile, roots: Roots, depth: usize, props: Props, count_last: bool) -> Vec<Vec<History>> {
-    let ex = Explorer { prof, props, threads: env.threads, findings: env.findings, budget: env.budget, close_rotations: props.c03 };
+    let ex = Explorer { prof, props, threads: env.threads, findings: env.findings, budget: env.budget, close_rotations: props.c03, seed: env.seed };
     let (r, name) = match roots {
         Roots::Empty => (vec![vec![]], "empty pool".to_string()),
         Roots::Seeds => {
@@ -41,6 +42,24 @@ pub fn bfs(env: &Env, report: &mut Report, prof: &Profile, roots: Roots, depth: 
     let res = ex.run(r, depth, count_last);
     report.add_run(prof, &name, depth, &res);
     res.stored
+}
+
+/// Harness self-check (thorough tier): the same exploration with another hand-out order and
+/// another thread count must give identical per-level counts and digests; a difference means
+/// the harness does not own all nondeterminism - a machinery error, never a verdict.
+fn determinism_selfcheck(env: &Env, report: &mut Report, prof: &Profile, depth: usize) {
+    let run = |threads: usize, seed: u64| {
+        let scratch = Findings::default();
+        let ex = Explorer { prof, props: Props::default(), threads, findings: &scratch, budget: env.budget, close_rotations: false, seed };
+        ex.run(vec![vec![]], depth, true).levels.iter().map(|l| (l.new_states, l.transitions, l.digest)).collect::<Vec<_>>()
+    };
+    let a = run(env.threads, env.seed);
+    let b = run((env.threads / 3).max(1), env.seed.wrapping_add(7919));
+    if a != b {
+        report.machinery_errors.push(format!("determinism self-check failed for profile {} depth {depth}: {a:?} vs {b:?}", prof.name));
+    } else {
+        report.bounds.push(format!("determinism self-check: profile {} to depth {depth} explored twice (different thread counts and hand-out orders) with identical per-level states/transitions/digests", prof.name));
+    }
 }
 
 fn flatten(stored: &[Vec<History>], max_level: usize) -> Vec<History> {
@@ -57,7 +76,8 @@ fn common_assumptions(report: &mut Report) {
 }
 
 pub fn run_property(prop: &str, tier: &str, threads: usize, budget: &Budget, findings: &Findings, report: &mut Report) {
-    let env = Env { prop, tier, threads, budget, findings };
+    let seed: u64 = std::env::var("VERIF_SEED").ok().and_then(|s| s.parse().ok()).unwrap_or(0);
+    let env = Env { seed, prop, tier, threads, budget, findings };
     let quick = tier == "quick";
     common_assumptions(report);
     let props = Props::only(prop);
@@ -72,6 +92,9 @@ pub fn run_property(prop: &str, tier: &str, threads: usize, budget: &Budget, fin
         "C01" => {
             report.rule = "every operation history over the profile's alphabet up to the stated depth, executed on the real crate next to a String model; a state is the exact canonical pool (raw inline bytes, whole heap buffers incl. stale tails, capacities, reference counts, sharing graph); distinct = distinct canonical state".into();
             let (dw, dt, ds, di, dsh, dst, dinl) = if quick { (4, 4, 3, 3, 4, 4, 5) } else { (6, 5, 4, 3, 5, 6, 8) };
+            if !quick {
+                determinism_selfcheck(&env, report, &wide, 4);
+            }
             bfs(&env, report, &wide, Roots::Empty, dw, props, dw <= 5);
             bfs(&env, report, &wide_try, Roots::Empty, dt, props, true);
             bfs(&env, report, &wide, Roots::Seeds, ds, props, true);
@@ -307,7 +330,110 @@ pub fn profile_by_name(name: &str) -> Option<Profile> {
     })
 }
 
-/// Re-executes a replay file step by step with every oracle on and prints the trace.
+/// Re-executes the case behind a finding and reports whether the same signature shows up again.
+/// `verbose` prints the step trace (used by `./check replay`).
+pub fn reproduce(prop: &str, sig: &str, profile: &str, history: &[String], extra: &str, verbose: bool, quick: bool) -> Result<bool, String> {
+    let findings = Findings::default();
+    let stats = ProbeStats::default();
+    let heap_as = if prop == "C03" { Some("C03") } else { None };
+    let iso_as = if prop == "C02" { Some("C02") } else { None };
+    if profile == "sweep" {
+        let sp = sweeps::sweep_profile();
+        let scx = SweepCtx { prof: &sp, findings: &findings, stats: &stats };
+        let threads = std::thread::available_parallelism().map(|n| n.get()).unwrap_or(4);
+        match prop {
+            "C07" => sweeps::c07_text_sweep(&scx, quick, threads),
+            "C08" => sweeps::c08_sweep(&scx, quick, threads),
+            "C09" => sweeps::c09_sweep(&scx, quick, threads),
+            "C12" => sweeps::c12_sweep(&scx, quick, threads),
+            "C17" => sweeps::c17_zoo(&scx, quick, threads),
+            "C20" => sweeps::c20_sweep(&scx, quick),
+            _ => return Err(format!("no sweep to replay for {prop}")),
+        }
+        if verbose {
+            println!("re-ran the sweep of {prop} (quick={quick})");
+        }
+    } else {
+        let prof = profile_by_name(profile).ok_or_else(|| format!("unknown profile {profile}"))?;
+        let mut hist = Vec::new();
+        for s in history {
+            match prof.table.iter().position(|o| format!("{o:?}") == *s) {
+                Some(i) => hist.push(i as OpId),
+                None => return Err(format!("operation {s} is not in profile {}", prof.name)),
+            }
+        }
+        crate::shim::with(|s| s.reset());
+        let mut p = Pool::new(prof.k);
+        for (n, &id) in hist.iter().enumerate() {
+            let op = prof.table[id as usize];
+            let rec = crate::oracle::step(&mut p, op, prof.form);
+            let mut viols = Vec::new();
+            step_oracles(&Props::all(), &rec, &p, &mut viols);
+            if verbose {
+                println!("step {:>2} {:<28} -> {:?}   requests={} frees={}", n + 1, format!("{op:?}"), rec.lean, rec.d.requests, rec.d.frees);
+                for i in 0..p.k {
+                    if let Some(o) = &rec.post[i] {
+                        println!("          slot {i}: {:?} len={} cap={} rc={} text={:?}", o.kind, o.len, o.cap, o.rc, String::from_utf8_lossy(&o.text));
+                    }
+                }
+            }
+            let tk = crate::oracle::target_kind(&rec);
+            for e in &viols {
+                if verbose {
+                    println!("          VIOLATED {}/{}: {}", e.prop, e.oracle, e.detail);
+                }
+                findings.add(&prof, &hist[..=n], e, op.kind_name(), tk, "");
+            }
+        }
+        if extra.is_empty() {
+            // closing orders and state oracles of the final state
+            let mut viols = Vec::new();
+            let _ = quiet(|| p.close(0));
+            crate::oracle::c03_closed("close(rotation 0)", &mut viols);
+            for rot in 1..prof.k {
+                let mut p = replay(&prof, &hist);
+                let _ = quiet(|| p.close(rot));
+                crate::oracle::c03_closed(&format!("close(rotation {rot})"), &mut viols);
+            }
+            let p = replay(&prof, &hist);
+            let _ = quiet(|| crate::oracle::c17_state(&p, "state", &mut viols));
+            let _ = quiet(|| crate::oracle::c20_state(&p, "state", &mut viols));
+            for e in &viols {
+                if verbose {
+                    println!("          VIOLATED {}/{}: {}", e.prop, e.oracle, e.detail);
+                }
+                // the engine files these under the last operation or under "state"
+                let lastop = hist.last().map(|&i| prof.table[i as usize].kind_name()).unwrap_or("state");
+                findings.add(&prof, &hist, e, lastop, "*", "");
+                findings.add(&prof, &hist, e, "state", "-", "");
+            }
+        } else {
+            let _ = quiet(|| drop(p));
+            if verbose {
+                println!("probe case: {extra}");
+            }
+            let cx = ProbeCtx { prof: &prof, findings: &findings, stats: &stats, heap_as, iso_as };
+            probes::replay_case(&cx, &hist, extra);
+        }
+    }
+    // signature = prop/oracle/op/target; the close-out findings are matched without the target
+    let parts: Vec<&str> = sig.split('/').collect();
+    let m = findings.map.lock().unwrap();
+    let hit = m.keys().any(|k| {
+        let kp: Vec<&str> = k.split('/').collect();
+        k == sig || (kp.len() == 4 && parts.len() == 4 && kp[0] == parts[0] && kp[1] == parts[1] && kp[2] == parts[2] && kp[3] == "*")
+    });
+    if verbose {
+        for f in m.values() {
+            if f.sig == sig {
+                println!("REPRODUCED {}: {}", f.sig, f.detail);
+            }
+        }
+    }
+    Ok(hit)
+}
+
+/// `./check replay <file>`
 pub fn replay_file(path: &str) -> i32 {
     let txt = match std::fs::read_to_string(path) {
         Ok(t) => t,
@@ -323,67 +449,23 @@ pub fn replay_file(path: &str) -> i32 {
             return 2;
         }
     };
-    let prof = match v["profile"].as_str().and_then(profile_by_name) {
-        Some(p) => p,
-        None => {
-            eprintln!("unknown profile in replay file");
-            return 2;
+    let hist: Vec<String> = v["history"].as_array().cloned().unwrap_or_default().iter().map(|s| s.as_str().unwrap_or("").to_string()).collect();
+    let sig = v["signature"].as_str().unwrap_or("");
+    let prop = v["property"].as_str().unwrap_or("");
+    println!("replaying {path} ({sig}), property {prop}");
+    let crash = v["crash"].as_bool() == Some(true);
+    match reproduce(prop, sig, v["profile"].as_str().unwrap_or(""), &hist, v["extra"].as_str().unwrap_or(""), true, v["tier"].as_str() != Some("thorough")) {
+        Ok(true) => {
+            println!("violation reproduced");
+            1
         }
-    };
-    let mut hist = Vec::new();
-    for s in v["history"].as_array().cloned().unwrap_or_default() {
-        let s = s.as_str().unwrap_or("").to_string();
-        match prof.table.iter().position(|o| format!("{o:?}") == s) {
-            Some(i) => hist.push(i as OpId),
-            None => {
-                eprintln!("operation {s} is not in profile {}", prof.name);
-                return 2;
-            }
+        Ok(false) => {
+            println!("{}", if crash { "the process survived this case: the recorded death did not reproduce" } else { "no violation with this signature" });
+            0
         }
-    }
-    println!("replaying {} ({}), property {}", path, v["signature"].as_str().unwrap_or("?"), v["property"].as_str().unwrap_or("?"));
-    crate::shim::with(|s| s.reset());
-    let mut p = Pool::new(prof.k);
-    let mut bad = 0;
-    for (n, &id) in hist.iter().enumerate() {
-        let op = prof.table[id as usize];
-        let rec = crate::oracle::step(&mut p, op, prof.form);
-        let mut viols = Vec::new();
-        step_oracles(&Props::all(), &rec, &p, &mut viols);
-        println!("step {:>2} {:<28} -> {:?}   requests={} frees={}", n + 1, format!("{op:?}"), rec.lean, rec.d.requests, rec.d.frees);
-        for i in 0..p.k {
-            if let Some(o) = &rec.post[i] {
-                println!("          slot {i}: {:?} len={} cap={} rc={} text={:?}", o.kind, o.len, o.cap, o.rc, String::from_utf8_lossy(&o.text));
-            }
-        }
-        for e in &viols {
-            println!("          VIOLATED {}/{}: {}", e.prop, e.oracle, e.detail);
-            bad += 1;
+        Err(e) => {
+            eprintln!("{e}");
+            2
         }
     }
-    let extra = v["extra"].as_str().unwrap_or("");
-    if !extra.is_empty() {
-        println!("probe case: {extra}");
-        let findings = Findings::default();
-        let stats = ProbeStats::default();
-        let cx = ProbeCtx { prof: &prof, findings: &findings, stats: &stats, heap_as: None, iso_as: None };
-        let _ = quiet(|| drop(p));
-        probes::replay_case(&cx, &hist, v["signature"].as_str().unwrap_or(""), extra);
-        for f in findings.map.lock().unwrap().values() {
-            if f.extra == extra || f.extra.starts_with(extra) {
-                println!("          VIOLATED {}: {}", f.sig, f.detail);
-                bad += 1;
-            }
-        }
-    } else {
-        let mut viols = Vec::new();
-        let _ = quiet(|| p.close(0));
-        crate::oracle::c03_closed("close", &mut viols);
-        for e in &viols {
-            println!("          VIOLATED {}/{}: {}", e.prop, e.oracle, e.detail);
-            bad += 1;
-        }
-    }
-    println!("{} violation(s) reproduced", bad);
-    if bad > 0 { 1 } else { 0 }
 }
